@@ -145,7 +145,7 @@ pub struct BlockHandleT { pub st: StatsT }
 impl BlockHandleT { pub fn statistics(&self) -> &StatsT { &self.st } }
 pub struct BlockManagerT { }
 impl BlockManagerT { #[verifier::external_body] pub fn block(&self, id: BlockId) -> BlockHandleT { unimplemented!() } }
-//@region foyer-storage/src/engine/block/flusher.rs :: impl~^impl<K, V, P> Runner<K, V, P>/fn submit_io_task name=tombstone_future start=/let tombstone_log = self\.tombstone_log\.clone\(\);/ body=1 rules=drop-tracing,de-async,iter-arg sub=@for TombstoneInfo \{ tombstone: _, stats \} in tombstone_infos \{@for verif_ti in tombstone_infos { let stats = verif_ti.stats;@
+//@region foyer-storage/src/engine/block/flusher.rs :: impl~^impl<K, V, P> Runner<K, V, P>/fn submit_io_task name=tombstone_future start=/let tombstone_log = / body=1 rules=drop-tracing,de-async,iter-arg sub=@for TombstoneInfo \{ tombstone: _, stats \} in tombstone_infos \{@for verif_ti in tombstone_infos { let stats = verif_ti.stats;@
 //@head
 fn tombstone_future(tombstone_log: Option<LogT>, tombstone_infos: Vec<TombstoneInfo>, block_manager: &BlockManagerT) -> (r: core::result::Result<(), Error>)
     requires tombstone_log matches Some(l) ==> l.must@ == toms_of(tombstone_infos@),
